@@ -38,17 +38,17 @@ def mon_c09(world, kind):
             where = [s for s, _d in ent]
             if where != [a.server]:
                 world.flag('placement-record-missing-or-misplaced', site,
-                           {'app': world.tmpl(a.name), 'model': a.server,
+                           {'app': world.tmpl[a.name], 'model': a.server,
                             'stored_under': where})
                 continue
             data = ent[0][1] or {}
             if data.get('identity') != a.identity:
                 world.flag('stale-identity-in-record', site,
-                           {'app': world.tmpl(a.name), 'model': a.identity,
+                           {'app': world.tmpl[a.name], 'model': a.identity,
                             'stored': data.get('identity')})
             if data.get('expires') != a.placement_expiry:
                 world.flag('stale-expiry-in-record', site,
-                           {'app': world.tmpl(a.name),
+                           {'app': world.tmpl[a.name],
                             'model': logical(a.placement_expiry),
                             'stored': logical(data.get('expires')),
                             'delta': None if None in (a.placement_expiry,
@@ -56,12 +56,12 @@ def mon_c09(world, kind):
                             else a.placement_expiry - data.get('expires')})
         elif ent:
             world.flag('record-for-pending-instance', site,
-                       {'app': world.tmpl(a.name),
+                       {'app': world.tmpl[a.name],
                         'stored_under': [s for s, _d in ent]})
     for (s, a) in dump:
         if a not in cell.apps:
             world.flag('record-for-unscheduled-instance', site,
-                       {'app': world.tmpl(a), 'server': s,
+                       {'app': world.tmpl[a], 'server': s,
                         'server_known': s in m.servers})
     if placed:
         world.stats['c09_cycles_with_placed'] += 1
@@ -77,7 +77,7 @@ def check_no_double_record(world, when):
     for a, where in seen.items():
         if len(where) > 1:
             world.flag('instance-recorded-under-two-servers', when,
-                       {'app': world.tmpl(a), 'servers': sorted(where)})
+                       {'app': world.tmpl[a], 'servers': sorted(where)})
 
 
 def check_c11(world):
@@ -112,23 +112,23 @@ def check_c11(world):
         app = m2.cell.apps.get(a)
         if app is None:
             world.flag('recorded-instance-not-loaded', 'Loader.load_model',
-                       {'app': world.tmpl(a), 'server': s})
+                       {'app': world.tmpl[a], 'server': s})
             continue
         if app.server != s:
             world.flag('recorded-placement-not-restored',
                        'Loader.restore_placement',
-                       {'app': world.tmpl(a), 'recorded': s,
+                       {'app': world.tmpl[a], 'recorded': s,
                         'loaded': app.server})
             continue
         if app.identity != data.get('identity'):
             world.flag('recorded-identity-not-restored',
                        'Loader.restore_placement',
-                       {'app': world.tmpl(a), 'recorded': data.get('identity'),
+                       {'app': world.tmpl[a], 'recorded': data.get('identity'),
                         'loaded': app.identity})
         if app.placement_expiry != data.get('expires'):
             world.flag('recorded-expiry-not-restored',
                        'Loader.restore_placement',
-                       {'app': world.tmpl(a),
+                       {'app': world.tmpl[a],
                         'recorded': logical(data.get('expires')),
                         'loaded': logical(app.placement_expiry)})
     if healthy_records:
@@ -137,4 +137,4 @@ def check_c11(world):
     for app in m2.cell.apps.values():
         if app.server and (app.server, app.name) not in rec_list:
             world.flag('placed-without-record', 'Loader.load_model',
-                       {'app': world.tmpl(app.name), 'server': app.server})
+                       {'app': world.tmpl[app.name], 'server': app.server})
